@@ -14,6 +14,20 @@ Case kinds (each replayable through execute):
           to what was set; astuple(), _jsonify and the stored values do not depend on the switch; the view differs only
           for one-item sequences
   print   same inputs; str(feature) must not depend on always_return_list
+  edit    ONE feature (parsed / from a database / from scalar-valued JSON) is observed (str, hash, ==, set and dict
+          membership, astuple), edited (feature[k]=, attributes[k]=, update, setdefault, del, in-place operations on a
+          value list, assignments to columns) and observed again, up to five times: every observation must describe the
+          feature as it is at that time - the printed line shows the current columns and is read back (reference reader
+          of the plain GFF3 / GTF form) to the current attributes; a feature built independently with the same columns
+          and attributes (obtained afresh and given the state in one go; parsed from the proper line) is ==, not !=,
+          hashes alike and is the same set/dict key; against the feature in the state before the edit == follows the
+          printed lines
+  sjson   JSON text whose values are scalars instead of lists: _unjsonify / Feature(attributes=text), rows of a gffutils
+          database rewritten with a plain sqlite3 UPDATE (own connection on the file, or the database's connection),
+          hand-built Feature(attributes=<dict with scalar values>) objects stored with create_db / update: attributes
+          read from there are sequences of strings (scalar wrapped), the printed line / == / hash are those of the list
+          form and of the feature parsed from the proper line
+Origins jsontext / jsondb (feature from scalar-valued JSON text / from a rewritten row) also feed kinds set, print, edit.
 The icontract invariant on the real Attributes class (contracts.install_attributes) is active throughout and drained
 after every case.
 """
@@ -32,8 +46,16 @@ RULE = ("mappings of 0-6 keys -> 0-4 values over arbitrary Unicode (JSON-structu
         "merge arguments: dict or Attributes, overlapping keys and values from number-like / unclear / non-number / "
         "Unicode pools, numeric_sort on/off, both switch settings; pools of 9-12 features (same line twice, from a "
         "database, built with list/tuple values, other dialect, one column/value/key order changed), all ordered pairs. "
+        "edit: 1-5 steps, each = random subset of {str, hash, ==, set/dict, astuple, previous state} observed, then one "
+        "edit (40% mapping operation with scalar/list/tuple forms, 35% in-place list operation out of 14, 25% column "
+        "through attribute / feature[i] / chrom,stop alias), all six observations at the end; values are non-empty and "
+        "survive a printed line (reserved characters inside GFF3 values); origins line / db / jsontext / jsondb; "
+        "sjson: 1-5 keys, first value scalar, others 65% scalar, arbitrary Unicode or reparse-safe, four JSON layouts, "
+        "routes text / UPDATE via own connection on a file / UPDATE via the database's connection / hand-built features "
+        "through create_db or update (1-3 features, memory or file + reopen). "
         "Non-trivial = the mapping has a scalar-set value or a non-ASCII/control/escape-worthy character (json, set, "
-        "print, db), the arguments share a key (merge), the pool has equal distinct objects (eq); distinct by case content")
+        "print, db), the arguments share a key (merge), the pool has equal distinct objects (eq), an observation precedes "
+        "an edit (edit), always (sjson); distinct by case content")
 REQUIRED = ["alias: re-fetched features compared with the stored text", "alias: repeated decodes compared",
             "alias: key-order pairs compared", "json: identities checked", "json: stdlib json decodes compared", "json: Feature(attributes=text) round trips",
             "json: mappings with lone surrogates", "merge: calls", "merge: calls while always_return_list=False", "merge: argument snapshots compared",
@@ -43,9 +65,23 @@ REQUIRED = ["alias: re-fetched features compared with the stored text", "alias: 
             "eq: unequal pairs with equal astuple()", "set: stored values checked", "set: scalar-set values",
             "set: tuple-set values", "set: operations while always_return_list=False",
             "set: one-item views that differ between the settings", "set: multi-item/empty views compared",
-            "print: str(feature) compared between the settings", "Attributes invariant evaluations"]
+            "print: str(feature) compared between the settings", "Attributes invariant evaluations",
+            "set: setdefault with a scalar default on a missing key", "set: features obtained from scalar-valued JSON",
+            "edit: observations followed by an edit", "edit: observations after an edit", "edit: attribute-mapping edits",
+            "edit: in-place value-list edits", "edit: column edits", "edit: printed lines re-parsed and compared",
+            "edit: hash compared with an independently built equal feature", "edit: set/dict membership judged",
+            "edit: equal feature built afresh from the same origin", "edit: equal feature built by parsing the proper line",
+            "edit: compared with a feature in the state before the edit", "edit: JSON column compared",
+            "edit: setdefault with a scalar default on a missing key",
+            "sjson: texts decoded with _unjsonify", "sjson: Feature(attributes=text) compared with the list form",
+            "sjson: compared with the feature parsed from the proper line", "sjson: database rows rewritten with plain sqlite3",
+            "sjson: features read from rewritten rows", "sjson: hand-built features read back"]
 REQUIRED_CLASSES = ["set origin=line", "set origin=db", "print origin=line", "print origin=db", "merge dict,dict",
-                    "merge attrs,attrs", "merge dict,attrs", "merge attrs,dict"]
+                    "merge attrs,attrs", "merge dict,attrs", "merge attrs,dict", "set origin=jsontext", "set origin=jsondb",
+                    "edit origin=line", "edit origin=db", "edit origin=jsontext", "edit origin=jsondb",
+                    "edit: inplace edit after an observation", "edit: column edit after an observation",
+                    "edit: attribute mapping edit after an observation", "sjson text", "sjson update_file",
+                    "sjson update_conn", "sjson ctor_create", "sjson ctor_update"]
 ASSUMPTIONS = [
     "'sequence of strings' = list or tuple of str (a tuple that was set stays a legitimate stored value); JSON identity "
     "and database read-back are judged on key order and on values as sequences (a tuple comes back as a list); Python "
@@ -60,6 +96,16 @@ ASSUMPTIONS = [
     "numbers in any order; keys holding nan/inf/underscore/blank-padded/non-ASCII-digit/overflowing literals are judged "
     "on elements and duplicate-freeness only; keys with a value float() refuses are judged on plain sorted order",
     "database round trip through the GFF3 importer with unique ids (merge_strategy='error'); keys ID/Parent are fixed",
+    "edit: 'describes the edited feature' = agrees with what feature.attributes and the column attributes show at that "
+    "time; an in-place operation on the list handed out by attributes[k] (always_return_list=True) may or may not be "
+    "reflected by the mapping (both accepted, counted) but every observation must agree with the mapping; in-place "
+    "operations are not carried out on tuples / on empty lists where Python would raise; the attribute column of the "
+    "printed line is read only while the feature carries the plain dialect of its format (GFF3 k=v1,v2;flag / GTF "
+    "k \"v1,v2\";), with a reference reader, not with gffutils' dialect inference; the feature parsed from the proper "
+    "line is compared only when the parser gives it the dialect of the edited feature and the intended attributes",
+    "sjson: hand-built features keep a list-valued ID (what the importer does with a scalar ID of a hand-built object is "
+    "not covered by the statement); the raw column written for them is not judged, only what is read back; the "
+    "feature parsed from the proper line is compared only when it prints like the list form",
 ]
 QUICK_SHARDS = 4
 THOROUGH_SHARDS = 16
@@ -830,16 +876,15 @@ def build_equal(ctx, case, f, snap, dbs, how):
             g = obtain(case, dbs)
         return set_state(g, snap)
     g = feature_from_line(M.render_line(snap[0], snap[1], case["fmt"]))
-    if dialect_core(g.dialect) != dialect_core(f.dialect):
-        ctx.mon("edit: proper line parsed under another dialect (not compared)")
+    if dialect_core(g.dialect) != dialect_core(f.dialect) or as_lists(observe(g.attributes)) != snap[1]:
+        # the parser's reading of e.g. a line that starts with a valueless key or has no attributes is not C17's business
+        ctx.mon("edit: proper line parsed under another dialect / to other attributes (not compared)")
         return None
     return g
 
 
 def look(ctx, case, f, st, obs, dbs, cache):
     """One observation of f judged against the state; returns a violation detail or None."""
-    from gffutils.feature import feature_from_line
-
     cols, pairs = st.snapshot()
     if obs == "str":
         s = str(f)
@@ -848,8 +893,10 @@ def look(ctx, case, f, st, obs, dbs, cache):
         if len(fields) != 9 or fields[:8] != M.column_texts(cols):
             return {"why": "printed line does not show the current columns of the edited feature", "line": s,
                     "columns": M.column_texts(cols)}
-        p = feature_from_line(s)
-        got = as_lists(observe(p.attributes))
+        if dialect_core(f.dialect) != M.PLAIN_DIALECT[case["fmt"]]:
+            ctx.mon("edit: feature carries another dialect than the plain one of its format (attribute column not read)")
+            return None
+        got = M.read_attributes(fields[8], case["fmt"])
         if got != pairs:
             return {"why": "printed line does not re-parse to the current attributes of the edited feature", "line": s,
                     "reparsed": got, "attributes": pairs}
@@ -1302,7 +1349,7 @@ def gen_edit_case(rng):
 
 
 def gen_sjson_case(rng):
-    route = rng.choice(["text", "text", "text", "text", "update_file", "update_conn", "update_conn", "ctor_create", "ctor_update"])
+    route = rng.choice(["text", "text", "text", "text", "text", "text", "update_file", "update_conn", "update_conn", "ctor_create", "ctor_update"])
     rich = rng.random() < 0.5
     fmt = "gtf" if (route in ("text", "update_file", "update_conn") and not rich and rng.random() < 0.3) else "gff3"
     case = {"kind": "sjson", "route": route, "rich": rich, "fmt": fmt, "style": rng.randrange(4),
@@ -1315,7 +1362,7 @@ def gen_sjson_case(rng):
 
 def edit_phase(ctx, rng):
     """One object observed, edited, observed again."""
-    for _ in range(ctx.budget(3600, 100000)):
+    for _ in range(ctx.budget(2800, 100000)):
         case = gen_edit_case(rng)
         execute(ctx, case)
         primed = any(st["pre"] for st in case["steps"])
@@ -1399,7 +1446,7 @@ def run(ctx):
         execute(ctx, case)
         ctx.case(case, True, sample=case if rng.random() < 0.02 else None, cls="alias shared-text" if shared else "alias")
     # 4c. JSON texts / database columns whose values are scalars
-    for _ in range(ctx.budget(1400, 40000)):
+    for _ in range(ctx.budget(900, 40000)):
         case = gen_sjson_case(rng)
         execute(ctx, case)
         ctx.case(case, True, sample=case if rng.random() < 0.05 else None, cls="sjson " + case["route"])
